@@ -581,6 +581,22 @@ func work(ctx *runner.Ctx) {
 			cases = append(cases, cs{A: []Op{{K: kind, N: n}, {K: "w"}}, Regime: "all", P: 0, F: fb})
 		}
 	}
+	// payloads of several read buffers (each refill of the 1 MiB read buffer is a separate code path)
+	multi := []int{2<<20 + 5, 3 << 20}
+	if !quick {
+		multi = []int{2<<20 - 4, 2<<20 - 3, 2 << 20, 2<<20 + 1, 2<<20 + 5, 3 << 20, 3<<20 + 65536 + 1, 5<<20 + 3}
+	}
+	for i, n := range multi {
+		kind := "d"
+		if i%2 == 1 {
+			kind = "s"
+		}
+		cases = append(cases, cs{A: []Op{{K: "h"}, {K: kind, N: n}, {K: "w"}}, Regime: "all", P: 0, F: fb})
+		cases = append(cases, cs{A: []Op{{K: kind, N: n}, {K: "b"}}, Regime: "4096", P: 0, F: fb})
+		if !quick || i == 0 {
+			cases = append(cases, cs{A: []Op{{K: kind, N: n}, {K: "l"}}, Regime: "all", Transport: "pipe", P: 0, F: fb})
+		}
+	}
 	straddle := append(append([]Op{}, fixed...), Op{K: "s", N: 3}, Op{K: "z", N: 3}, Op{K: "d", N: 17}, Op{K: "s", N: 0})
 	for k := 0; k <= 8; k++ {
 		for i, it := range straddle {
